@@ -107,11 +107,19 @@ type pollCtx struct {
 	CancelAt int // >0: report done from the k-th poll on (k counted from 1)
 	Exceeded bool
 	OnFire   func(reason string) // called once when the context becomes done
+	// FarDeadline: the context also carries a deadline far in the future (a host's upper bound on
+	// the run time): an earlier cancellation still is a cancellation.
+	FarDeadline bool
 }
 
 func newPollCtx(budget int) *pollCtx { return &pollCtx{done: make(chan struct{}), Budget: budget} }
 
-func (c *pollCtx) Deadline() (time.Time, bool) { return time.Time{}, false }
+func (c *pollCtx) Deadline() (time.Time, bool) {
+	if c.FarDeadline {
+		return time.Date(2200, 1, 1, 0, 0, 0, 0, time.UTC), true
+	}
+	return time.Time{}, false
+}
 func (c *pollCtx) Done() <-chan struct{} {
 	c.Polls++
 	if c.err == nil {
@@ -306,6 +314,7 @@ type RunOpts struct {
 	CancelAt    int
 	Horizon     int
 	TreeKillFn  string // interpreter: register this function of module main as the host's kill handler
+	FarDeadline bool   // the context carries a deadline far in the future
 	Singletons  map[string]value.Value
 	Invocations []runtime.FunctionInvocation // host calls after construction (default: main)
 }
@@ -531,6 +540,7 @@ func runTree(a Analyzed, opts RunOpts) (o Obs) {
 	if opts.CancelAt > 0 {
 		ctx.CancelAt = opts.CancelAt
 	}
+	ctx.FarDeadline = opts.FarDeadline
 	defer func() {
 		if rv := recover(); rv != nil {
 			o.Class = "HOST-PANIC"
